@@ -46,7 +46,7 @@ IMPORTS = ('From Coq Require Import ZArith List. Import ListNotations. Open Scop
 
 FID = {'ra': 0, 'dec': 1, 'time': 2, 'azi': 3, 'zen': 4, 'sin_dec': 5, 'run': 6, 'ang_err': 7, 'log_energy': 8,
        'user_q': 9, 'true_ra': 10, 'true_dec': 11, 'true_energy': 12, 'mcweight': 13, 'mc_user': 14,
-       'pre_a': 20, 'stat_a': 21, 'stat_b': 22, 'comp_gp': 30, 'comp_x': 31}
+       'sin_true_dec': 15, 'pre_a': 20, 'stat_a': 21, 'stat_b': 22, 'gfp_w': 23, 'comp_gp': 30, 'comp_x': 31}
 TWO_PI_BITS = 4618760256179416344
 
 
@@ -162,13 +162,25 @@ def wrap_scramble(ctx, method, kind, ra_range):
     def scramble(rss, dataset, data):
         before = table_bytes(data)
         n0 = len(LOG)
+        azi0 = np.array(data['azi'], copy=True) if 'azi' in data else None
+        zen0 = np.array(data['zen'], copy=True) if 'zen' in data else None
         r = orig(rss=rss, dataset=dataset, data=data)
         after = table_bytes(r)
         draws = None
         for e in LOG[n0:]:
             if e[0] == 'uniform' and kind == 'uniform':
                 draws = e[1]
-        LOG.append(('scr', kind, {f: np.array(r[f], copy=True) for f in DOC[kind]}, draws, str(before[1]['ra'][0])))
+        cols = {f: np.array(r[f], copy=True) for f in DOC[kind]}
+        if kind in ('i3time', 'seasonal', 'coretime') and azi0 is not None:
+            # the oracle handed to the model is the output of the REAL coordinate transform on the old azimuths and
+            # the drawn times - not the stored column read back (C07_time_ra_in_range would be circular otherwise)
+            from skyllh.i3.utils.coords import azi_to_ra_transform, hor_to_equ_transform
+            tt = np.array(r['time'], dtype=np.float64, copy=True)
+            if kind == 'coretime' and zen0 is not None:
+                (cols['ra'], cols['dec']) = hor_to_equ_transform(azi0, zen0, tt)
+            else:
+                cols['ra'] = azi_to_ra_transform(azi0, tt)
+        LOG.append(('scr', kind, cols, draws, str(before[1]['ra'][0])))
         ctx.count('scramble:' + kind)
         # ---- predicate: frame of the scrambling
         changed = [f for f in before[0] if f not in after[1] or after[1][f] != before[1][f]]
@@ -213,6 +225,7 @@ def make_tables(rng, n, mc, ra_dt):
         d.update(true_ra=r.uniform(0.1, 6.2, n), true_dec=r.uniform(-1.2, 1.2, n),
                  true_energy=r.uniform(100, 1e5, n), mcweight=r.uniform(1, 2, n),
                  mc_user=r.randint(0, 100, n).astype(np.int16))
+        d['sin_true_dec'] = np.sin(d['true_dec'])
     return DFRA(d, copy=False)
 
 
@@ -254,12 +267,8 @@ def build(ctx, cfgd, enc=None, case=None):
     cfg = Config()
     S.cfg_fields = DataFields.get_joint_names(datafields=cfg['datafields'], stages=(DFS.ANALYSIS_EXP))
 
-    class SigGen(PointLikeSourceI3SignalGenerationMethod):
-        def calc_source_signal_mc_event_flux(self, data_mc, shg):
-            n = len(data_mc)
-            idx = np.arange(n)
-            return (idx, (idx % shg.n_sources).astype(np.int64), np.ones(n))
-    S.sig_gen_method = SigGen()
+    # the REAL PointLikeSourceI3SignalGenerationMethod incl. calc_source_signal_mc_event_flux (reads data.mc)
+    S.sig_gen_method = PointLikeSourceI3SignalGenerationMethod(src_sin_dec_half_bandwidth=0.9)
     orig_post = S.sig_gen_method.signal_event_post_sampling_processing
 
     def post(shg, meta, ev):
@@ -270,24 +279,38 @@ def build(ctx, cfgd, enc=None, case=None):
     S.sig_gen_method.signal_event_post_sampling_processing = post
 
     class LLH(LLHRatio):
+        """dispatcher over one REAL ZeroSigH0SingleDatasetTCLLHRatio per data set (real MultiDimGrid PDFs, real
+        SigOverBkgPDFRatio, real minimizer); only the combination over data sets is this thin loop"""
         def __init__(self, pmm, ana):
             self._pmm = pmm
             self._ana = ana
             self.mean_n_sig_0 = 0
+            self.real = []
 
         def initialize_for_new_trial(self, tl=None, **kw):
-            pass
+            for r in self.real:
+                r.initialize_for_new_trial(tl=tl)
 
         def evaluate(self, fitparam_values, src_params_recarray=None, tl=None):
             s = 0.
-            for tdm in self._ana._tdm_list:
-                for f in tdm.events.field_name_list:
-                    s += float(np.sum(tdm.get_data(f)))
-            return (s, np.zeros(1))
+            for (i, r) in enumerate(self.real):
+                S.eval_ds = i
+                if r.tdm.events is None:
+                    raise AttributeError('no trial data')
+                (ll, g) = r.evaluate(fitparam_values)
+                s += float(ll)
+            return (s, np.zeros(len(fitparam_values)))
 
         def maximize(self, rss, tl=None):
-            (l, g) = self.evaluate(np.array([0.]))
-            return (l, np.array([0.]), {})
+            s = 0.
+            fp = None
+            for (i, r) in enumerate(self.real):
+                S.eval_ds = i
+                if r.tdm.events is None:
+                    raise AttributeError('no trial data')
+                (ll, fp, st) = r.maximize(rss)
+                s += float(ll)
+            return (s, fp, {})
 
     class TS(TestStatistic):
         def __call__(self, pmm, log_lambda, fitparam_values, **kw):
@@ -350,7 +373,9 @@ def build(ctx, cfgd, enc=None, case=None):
     shg_mgr = SourceHypoGroupManager(SourceHypoGroup(sources=sources, fluxmodel=fm, detsigyield_builders=DB(cfg=cfg),
                                                      sig_gen_method=S.sig_gen_method))
     pmm = ParameterModelMapper(models=sources)
-    pmm.map_param(Parameter('ns', 0, 0, 100))
+    pmm.map_param(Parameter('ns', 1, 0, 100))
+    pmm.map_param(Parameter('gamma', 2.0, 1.0, 4.0), models=sources)
+    S.eval_ds = 0
     valid = [dict(), dict()]
     if cfgd['valid_range']:
         valid = [{'dec': (-0.25, 1.6)}, {'dec': (-0.25, 1.6)}]
@@ -447,6 +472,8 @@ def build(ctx, cfgd, enc=None, case=None):
             else:
                 comps = {'comp_gp': (lambda dataset, data, events: np.cos(events['dec']).astype(np.float64)),
                          'comp_x': (lambda dataset, data, events: events['mcweight'] * 2.0)}
+                if dc.get('comps') == 'none':
+                    comps = {}                  # no component: the composite method must still work on a copy
                 meth = CompositeMCDataSamplingBkgGenMethod(bkg_component_rate_calc_func_dict=comps, **kw)
         checkpoint('bkg-method:' + mk)
         S.methods.append(meth)
@@ -475,8 +502,17 @@ def build(ctx, cfgd, enc=None, case=None):
                 tdm.add_data_field('sin_dec', logged('stat', 'sin_dec', lambda t: np.sin(t.get_data('dec')).astype(np.float64)))
             else:
                 tdm.add_data_field(nm, logged('stat', nm, lambda t: (t.get_data('log_energy') * 2).astype(np.float64)))
+        if tc.get('gfp'):
+            def mk_gfp(i_):
+                def gfp_func(tdm, shg_mgr, pmm, global_fitparams_dict=None):
+                    r = (tdm.get_data('log_energy') * 0.5 + global_fitparams_dict['gamma']).astype(np.float64)
+                    LOG.append(('gfp', i_, np.array(r, copy=True)))
+                    return r
+                return gfp_func
+            tdm.add_data_field('gfp_w', mk_gfp(i), global_fitparam_names=['gamma'])
         S.tdmcfg.append(tc)
         checkpoint('trial-data-manager')
+        S.tdms = getattr(S, 'tdms', []) + [tdm]
         esm = None
         if tc['esm'] == 'all':
             esm = AllEventSelectionMethod(shg_mgr)
@@ -487,13 +523,36 @@ def build(ctx, cfgd, enc=None, case=None):
         checkpoint('add_dataset')
     ana._ds_sig_weight_factors_service = WS()
     ana.llhratio = ana.construct_llhratio()
+    from skyllh.core.binning import BinningDefinition
+    from skyllh.core.signalpdf import SignalMultiDimGridPDF
+    from skyllh.core.backgroundpdf import BackgroundMultiDimGridPDF
+    from skyllh.core.pdfratio import SigOverBkgPDFRatio
+    from skyllh.core.llhratio import ZeroSigH0SingleDatasetTCLLHRatio
+    from skyllh.core.minimizer import Minimizer, LBFGSMinimizerImpl
+    for i in range(2):
+        bx = BinningDefinition('log_energy', np.linspace(1.5, 6.5, 11))
+
+        def ones(pdf, tdm, params_recarray, eventdata, evt_mask=None):
+            n = eventdata.shape[1] if evt_mask is None else int(np.count_nonzero(evt_mask))
+            return np.ones((n,))
+        sp = SignalMultiDimGridPDF(pmm=pmm, axis_binnings=[bx], pdf_grid_data=np.linspace(1.0, 2.0, 11) * (1 + 0.1 * i),
+                                   norm_factor_func=ones, cache_pd_values=False, cfg=cfg)
+        bp = BackgroundMultiDimGridPDF(pmm=pmm, axis_binnings=[bx], pdf_grid_data=np.linspace(2.0, 1.0, 11),
+                                       norm_factor_func=ones, cache_pd_values=False, cfg=cfg)
+        checkpoint('pdfs')
+        ratio = SigOverBkgPDFRatio(sig_pdf=sp, bkg_pdf=bp, cfg=cfg)
+        ana._llhratio.real.append(ZeroSigH0SingleDatasetTCLLHRatio(
+            pmm=pmm, minimizer=Minimizer(LBFGSMinimizerImpl(cfg=cfg)), shg_mgr=shg_mgr, tdm=S.tdms[i],
+            pdfratio=ratio, cfg=cfg))
+        checkpoint('dataset-llhratio')
     checkpoint('llhratio')
     ana.construct_background_generator()
     checkpoint('background-generator')
     ana.construct_signal_generator()
     checkpoint('signal-generator')
+    cand = ana._sig_generator._sig_candidates
     for i in range(2):
-        S.cons_ops.append(f'ConsSigCand {nat(i)} {zl(list(range(len(S.datas[i].mc))))}')
+        S.cons_ops.append(f"ConsSigCand {nat(i)} {zl(cand['ev_idx'][cand['ds_idx'] == i].tolist())}")
     # capture the events handed to do_trial_with_given_pseudo_data (do_trial keeps them internal)
     S.captured = {}
     orig_dt = ana.do_trial_with_given_pseudo_data
@@ -632,6 +691,16 @@ def ops_sig(S, enc, tr):
             groups.append(f"(mkG {zl(idx)} {post_term(enc, pe)} {bl(inv)} [{'; '.join(rounds)}])")
         ops.append(f"GenSig {nat(ds)} {nat(n)} 0 [{'; '.join(groups)}]")
     return ops, dss
+
+
+def ops_eval(S, enc, log):
+    """evaluation / maximisation of both data sets: what the real evaluation wrote into tdm.events (the global fit
+    parameter dependent data fields), in order"""
+    ops = []
+    for i in range(2):
+        w = [f"({nat(fid('gfp_w'))}, FFresh {zl(enc.col(e[2]))})" for e in log if e[0] == 'gfp' and e[1] == i]
+        ops.append(f"Evaluate {nat(i)} [{'; '.join(w)}]")
+    return ops
 
 
 def ops_init(S, enc, tr, unblind=False):
@@ -835,7 +904,7 @@ def run_session(ctx, sess):
                 pre_tables = list(S.events)
                 ana.initialize_trial(list(S.events), list(S.n_events))
             elif call == 'eval':
-                ana._llhratio.evaluate(np.array([0.]))
+                ana._llhratio.evaluate(np.array([1.0, 2.5]))
             elif call == 'trial':
                 S.sig = {}
                 S.captured.clear()
@@ -866,19 +935,19 @@ def run_session(ctx, sess):
             ops = [f'DropSig {nat(i)}' for i in range(2)] + ops      # the caller keeps only the latest dictionary
         elif call == 'trial_bkg_sig':
             ops = [f'Merge {nat(i)}' for i in range(2)] + ops_init(S, enc, tr) \
-                + [f'Evaluate {nat(i)}' for i in range(2)]
+                + ops_eval(S, enc, LOG)
         elif call == 'init':
             ops = ops_init(S, enc, tr)
         elif call == 'eval':
-            ops = [f'Evaluate {nat(i)}' for i in range(2)]
+            ops = ops_eval(S, enc, LOG)
         elif call == 'trial':
             ops = [f'DropSig {nat(i)}' for i in range(2)] + ops_bkg(S, enc, tr, was_cached)
             (o2, dss) = ops_sig(S, enc, tr) if sess['mean_sig'] != 0 else ([], [])
             ops += o2 + [f'Merge {nat(i)}' for i in dss]
-            ops += ops_init(S, enc, tr) + [f'Evaluate {nat(i)}' for i in range(2)]
+            ops += ops_init(S, enc, tr) + ops_eval(S, enc, LOG)
         elif call == 'unblind':
             ops = ops_init(S, enc, tr, unblind=True) \
-                + [f'Evaluate {nat(i)}' for i in range(2)]
+                + ops_eval(S, enc, LOG)
         elif call == 'drop':
             ops = [f'DropEvents {nat(i)}' for i in range(2)]
         groups.append('[' + '; '.join(ops) + ']')
@@ -955,7 +1024,8 @@ def gen_cfg(rng, i_case):
                    'presel': rng.choice([None, 'all', 'mask']), 'mean': rng.choice([3, 5, 8]),
                    'tdm': {'index': rng.choice([None, None, 'time', 'run', 'dec']),
                            'pre': rng.choice([None, None, 'ok']), 'static': static,
-                           'esm': rng.choice([None, 'all', 'mask'])}})
+                           'esm': rng.choice([None, 'all', 'mask']), 'gfp': rng.random() < 0.5},
+                   'comps': rng.choice(['two', 'two', 'none'])})
     return {'seed': rng.randrange(10 ** 6), 'ds': ds, 'valid_range': rng.random() < 0.5}
 
 
@@ -987,7 +1057,7 @@ def corpus_sessions():
     """regression corpus: the sessions that showed the two defects repaired in /repo"""
     def dsc(**kw):
         d = {'n_exp': 6, 'n_mc': 9, 'ra32': True, 'bkg': 'fixed', 'scr': 'uniform', 'ra_range': None, 'presel': None,
-             'mean': 5, 'tdm': {'index': 'time', 'pre': 'ok', 'static': [('stat_a', 'fresh')], 'esm': None}}
+             'mean': 5, 'tdm': {'index': 'time', 'pre': 'ok', 'static': [('stat_a', 'fresh')], 'esm': None, 'gfp': True}, 'comps': 'two'}
         d.update(kw)
         return d
     return [
@@ -1002,6 +1072,10 @@ def corpus_sessions():
         {'cfg': {'seed': 10, 'ds': [dsc(bkg='comp', scr=None, presel='mask'), dsc(bkg='comp', scr='uniform', presel='all')],
                  'valid_range': False},
          'calls': ['bkg', 'bkg', 'sig', 'init'], 'mean_sig': 3},
+        # composite method with an EMPTY component dictionary, with and without scrambler (audit mutation 2)
+        {'cfg': {'seed': 11, 'ds': [dsc(bkg='comp', scr='uniform', comps='none'), dsc(bkg='comp', scr=None, comps='none')],
+                 'valid_range': False},
+         'calls': ['bkg', 'trial', 'eval', 'unblind'], 'mean_sig': 2},
     ]
 
 
